@@ -504,6 +504,8 @@ pub fn load(dir: &Path, tier: Tier) -> Result<Catalogue, String> {
         ("", "\n", 500_000, ""),
         ("", "&a", 100_000, ""),
         ("", "a ", 700_000, "%put done;"),
+        ("x='", "a", 1_100_000, "'; y=1;"),
+        ("%put ", "b", 1_100_000, "; %let z=2;"),
         ("%m(a , /*c*/ b = ", "/*c*/ ", 60_000, ")"),
         ("%let ", "/*c*/ ", 60_000, "a=1;"),
         ("%m", " \n", 150_000, "(1)"),
@@ -512,7 +514,7 @@ pub fn load(dir: &Path, tier: Tier) -> Result<Catalogue, String> {
     .enumerate()
     {
         // the quick tier keeps six of them
-        if tier == Tier::Quick && ![0usize, 1, 2, 6, 11, 12].contains(&k) {
+        if tier == Tier::Quick && ![0usize, 1, 2, 6, 11, 12, 13, 14].contains(&k) {
             continue;
         }
         let t = format!("{}{}{}", head, unit.repeat(*reps), tail);
